@@ -492,3 +492,360 @@ Theorem root_layout_free_sem_w s1 s2 r :
 Proof.
   intros W1 W2 HA. apply root_layout_free_w, reach_content_layout_free_w; auto.
 Qed.
+
+(* ------------------------------------------------------------------ *)
+(* What the byte stream does bind: every encoder is prefix-free, so with the section counts
+   (skeleton) fixed the content can be read back uniquely. *)
+
+Definition id_ok (x : N) : Prop := x < 2 ^ 256.
+Definition len_ok (x : N) : Prop := x < 2 ^ 64.
+Definition byte_ok (x : N) : Prop := x < 256.
+
+Definition att_ok (a : att) : Prop :=
+  match a with
+  | Atom ty bs => id_ok ty /\ len_ok (lenN bs)
+  | Descend w => id_ok w
+  end.
+Definition oatt_ok (o : option att) : Prop := match o with None => True | Some a => att_ok a end.
+Definition akey_ok (k : akey) : Prop :=
+  byte_ok (ak_owner k) /\ byte_ok (ak_plane k) /\ id_ok (ak_warp k) /\ id_ok (ak_local k).
+Definition oakey_ok (o : option akey) : Prop := match o with None => True | Some k => akey_ok k end.
+Definition cnode_ok (n : cnode) : Prop := id_ok (fst n) /\ (id_ok (fst (snd n)) /\ oatt_ok (snd (snd n))).
+Definition cedge_ok (e : cedge) : Prop :=
+  id_ok (fst e) /\ (id_ok (fst (snd e)) /\ (id_ok (fst (snd (snd e))) /\ oatt_ok (snd (snd (snd e))))).
+Definition cbucket_ok (b : cbucket) : Prop :=
+  id_ok (fst b) /\ len_ok (lenN (snd b)) /\ Forall cedge_ok (snd b).
+Definition cwarp_ok (c : cwarp) : Prop :=
+  id_ok (cw_id c) /\ id_ok (cw_root c) /\ oakey_ok (cw_parent c) /\
+  Forall cnode_ok (cw_nodes c) /\ Forall cbucket_ok (cw_buckets c).
+Definition content_ok (c : content) : Prop :=
+  id_ok (fst (fst c)) /\ id_ok (snd (fst c)) /\ Forall cwarp_ok (snd c).
+
+Definition PF {A} (ok : A -> Prop) (enc : A -> bytes) : Prop :=
+  forall x1 x2 r1 r2, ok x1 -> ok x2 -> enc x1 ++ r1 = enc x2 ++ r2 -> x1 = x2 /\ r1 = r2.
+
+Lemma app_eq_len {A} (a1 : list A) : forall a2 r1 r2,
+  length a1 = length a2 -> a1 ++ r1 = a2 ++ r2 -> a1 = a2 /\ r1 = r2.
+Proof.
+  induction a1 as [|x a1 IH]; intros [|y a2] r1 r2 HL HE; cbn in *; try discriminate; auto.
+  inversion HE; subst. destruct (IH a2 r1 r2) as [-> ->]; auto.
+Qed.
+
+Lemma rev_inj {A} (l1 l2 : list A) : rev l1 = rev l2 -> l1 = l2.
+Proof. intros H. rewrite <- (rev_involutive l1), <- (rev_involutive l2), H. reflexivity. Qed.
+
+Lemma PF_id32 : PF id_ok id32.
+Proof.
+  intros x1 x2 r1 r2 H1 H2 HE. unfold id32 in HE.
+  destruct (app_eq_len _ _ _ _ (eq_trans (be_bytes_length 32 x1) (eq_sym (be_bytes_length 32 x2))) HE) as [E ->].
+  split; [|reflexivity]. unfold be_bytes in E. apply rev_inj in E.
+  apply (le_bytes_inj 32); auto.
+Qed.
+
+Lemma PF_u64 : PF len_ok u64le.
+Proof.
+  intros x1 x2 r1 r2 H1 H2 HE. unfold u64le in HE.
+  destruct (app_eq_len _ _ _ _ (eq_trans (le_bytes_length 8 x1) (eq_sym (le_bytes_length 8 x2))) HE) as [E ->].
+  split; [|reflexivity]. apply (le_bytes_inj 8); auto.
+Qed.
+
+Lemma PF_byte : PF (fun _ : N => True) (fun b => [b]).
+Proof. intros x1 x2 r1 r2 _ _ HE. inversion HE; auto. Qed.
+
+Lemma PF_pair {A B} okA okB (encA : A -> bytes) (encB : B -> bytes) :
+  PF okA encA -> PF okB encB ->
+  PF (fun p : A * B => okA (fst p) /\ okB (snd p)) (fun p => encA (fst p) ++ encB (snd p)).
+Proof.
+  intros PA PB [a1 b1] [a2 b2] r1 r2 [Ha1 Hb1] [Ha2 Hb2] HE. cbn [fst snd] in *.
+  rewrite <- ?app_assoc in HE.
+  destruct (PA _ _ _ _ Ha1 Ha2 HE) as [-> HE2].
+  destruct (PB _ _ _ _ Hb1 Hb2 HE2) as [-> ->]. auto.
+Qed.
+
+Lemma PF_list {A} ok (enc : A -> bytes) : PF ok enc ->
+  forall l1 l2 r1 r2, length l1 = length l2 -> Forall ok l1 -> Forall ok l2 ->
+    flat_map enc l1 ++ r1 = flat_map enc l2 ++ r2 -> l1 = l2 /\ r1 = r2.
+Proof.
+  intros P. induction l1 as [|x l1 IH]; intros [|y l2] r1 r2 HL F1 F2 HE; cbn in *; try discriminate; auto.
+  inversion F1; subst. inversion F2; subst. rewrite <- ?app_assoc in HE.
+  destruct (P _ _ _ _ H1 H3 HE) as [-> HE2].
+  destruct (IH l2 r1 r2) as [-> ->]; auto.
+Qed.
+
+Lemma lenN_inj {A} (l1 l2 : list A) : lenN l1 = lenN l2 -> length l1 = length l2.
+Proof. unfold lenN. lia. Qed.
+
+Lemma cons_eq {A} (a b : A) x y : a :: x = b :: y -> a = b /\ x = y.
+Proof. intros H; inversion H; auto. Qed.
+
+Lemma PF_oatt : PF oatt_ok enc_oatt.
+Proof.
+  intros [[t1 b1|w1]|] [[t2 b2|w2]|] r1 r2 H1 H2 HE; cbn [enc_oatt enc_att app] in HE; try discriminate.
+  - apply cons_eq in HE. destruct HE as [_ HE]. apply cons_eq in HE. destruct HE as [_ HE'].
+    cbn in H1, H2. destruct H1 as [Ht1 Hl1], H2 as [Ht2 Hl2].
+    rewrite <- ?app_assoc in HE'.
+    destruct (PF_id32 _ _ _ _ Ht1 Ht2 HE') as [-> HE2].
+    destruct (PF_u64 _ _ _ _ Hl1 Hl2 HE2) as [EL HE3].
+    destruct (app_eq_len _ _ _ _ (lenN_inj _ _ EL) HE3) as [-> ->]. auto.
+  - apply cons_eq in HE. destruct HE as [_ HE]. apply cons_eq in HE. destruct HE as [_ HE'].
+    cbn in H1, H2.
+    destruct (PF_id32 _ _ _ _ H1 H2 HE') as [-> ->]. auto.
+  - apply cons_eq in HE. destruct HE as [_ ->]. auto.
+Qed.
+
+Lemma PF_oakey : PF oakey_ok enc_oakey.
+Proof.
+  intros [[o1 p1 w1 l1]|] [[o2 p2 w2 l2]|] r1 r2 H1 H2 HE;
+    cbn [enc_oakey enc_akey app ak_owner ak_plane ak_warp ak_local] in HE; try discriminate.
+  2: { apply cons_eq in HE. destruct HE as [_ ->]. auto. }
+  apply cons_eq in HE. destruct HE as [_ HE]. apply cons_eq in HE. destruct HE as [-> HE].
+  apply cons_eq in HE. destruct HE as [-> HE']. cbn in H1, H2.
+  destruct H1 as (_ & _ & Hw1 & Hl1), H2 as (_ & _ & Hw2 & Hl2). cbn in *.
+  rewrite <- ?app_assoc in HE'.
+  destruct (PF_id32 _ _ _ _ Hw1 Hw2 HE') as [-> HE2].
+  destruct (PF_id32 _ _ _ _ Hl1 Hl2 HE2) as [-> ->]. auto.
+Qed.
+
+Lemma PF_cnode : PF cnode_ok enc_cnode.
+Proof. exact (PF_pair _ _ _ _ PF_id32 (PF_pair _ _ _ _ PF_id32 PF_oatt)). Qed.
+
+Lemma PF_cedge : PF cedge_ok enc_cedge.
+Proof. exact (PF_pair _ _ _ _ PF_id32 (PF_pair _ _ _ _ PF_id32 (PF_pair _ _ _ _ PF_id32 PF_oatt))). Qed.
+
+(* a bucket carries its own edge count *)
+Lemma PF_cbucket : PF cbucket_ok enc_cbucket.
+Proof.
+  intros [f1 e1] [f2 e2] r1 r2 (Hf1 & Hn1 & He1) (Hf2 & Hn2 & He2) HE.
+  unfold enc_cbucket in HE. cbn [fst snd] in *. rewrite <- ?app_assoc in HE.
+  destruct (PF_id32 _ _ _ _ Hf1 Hf2 HE) as [-> HE2].
+  destruct (PF_u64 _ _ _ _ Hn1 Hn2 HE2) as [EL HE3].
+  destruct (PF_list _ _ PF_cedge _ _ _ _ (lenN_inj _ _ EL) He1 He2 HE3) as [-> ->]. auto.
+Qed.
+
+(* an instance section is readable once its two counts are known *)
+Lemma cwarp_inj c1 c2 r1 r2 :
+  cwarp_ok c1 -> cwarp_ok c2 ->
+  length (cw_nodes c1) = length (cw_nodes c2) -> length (cw_buckets c1) = length (cw_buckets c2) ->
+  enc_cwarp c1 ++ r1 = enc_cwarp c2 ++ r2 -> c1 = c2 /\ r1 = r2.
+Proof.
+  destruct c1 as [w1 ro1 p1 n1 b1], c2 as [w2 ro2 p2 n2 b2]. unfold cwarp_ok, enc_cwarp. cbn.
+  intros (Hw1 & Hr1 & Hp1 & Hn1 & Hb1) (Hw2 & Hr2 & Hp2 & Hn2 & Hb2) LN LB HE.
+  rewrite <- ?app_assoc in HE.
+  destruct (PF_id32 _ _ _ _ Hw1 Hw2 HE) as [-> HE2].
+  destruct (PF_id32 _ _ _ _ Hr1 Hr2 HE2) as [-> HE3].
+  destruct (PF_oakey _ _ _ _ Hp1 Hp2 HE3) as [-> HE4].
+  destruct (PF_list _ _ PF_cnode _ _ _ _ LN Hn1 Hn2 HE4) as [-> HE5].
+  destruct (PF_list _ _ PF_cbucket _ _ _ _ LB Hb1 Hb2 HE5) as [-> ->]. auto.
+Qed.
+
+Lemma cwarps_inj l1 : forall l2,
+  Forall cwarp_ok l1 -> Forall cwarp_ok l2 ->
+  map (fun w => (length (cw_nodes w), length (cw_buckets w))) l1 =
+  map (fun w => (length (cw_nodes w), length (cw_buckets w))) l2 ->
+  flat_map enc_cwarp l1 = flat_map enc_cwarp l2 -> l1 = l2.
+Proof.
+  induction l1 as [|c1 l1 IH]; intros [|c2 l2] F1 F2 SK HE; cbn in *; try discriminate; auto.
+  inversion F1; subst. inversion F2; subst. inversion SK as [[LN LB SK']].
+  destruct (cwarp_inj _ _ _ _ H1 H3 LN LB HE) as [-> HE2]. f_equal. apply IH; auto.
+Qed.
+
+(* Partial injectivity: equal skeleton => the preimage binds the root key and every field of every
+   reachable record (node type, attachment tag/type/length/bytes, edge id/type/target, bucket
+   source and edge count, instance id/root/parent). *)
+Theorem enc_content_inj_same_skeleton c1 c2 :
+  content_ok c1 -> content_ok c2 -> skeleton c1 = skeleton c2 ->
+  enc_content c1 = enc_content c2 -> c1 = c2.
+Proof.
+  destruct c1 as [[rw1 rn1] l1], c2 as [[rw2 rn2] l2]. unfold content_ok, skeleton, enc_content. cbn [fst snd].
+  intros (Ha1 & Hb1 & F1) (Ha2 & Hb2 & F2) SK HE.
+  apply app_inv_head in HE.
+  assert (HE' : id32 rw1 ++ id32 rn1 ++ flat_map enc_cwarp l1 = id32 rw2 ++ id32 rn2 ++ flat_map enc_cwarp l2) by exact HE.
+  destruct (PF_id32 _ _ _ _ Ha1 Ha2 HE') as [-> HE2].
+  destruct (PF_id32 _ _ _ _ Hb1 Hb2 HE2) as [-> HE3].
+  f_equal. apply cwarps_inj; auto.
+Qed.
+
+(* state-level corollary *)
+Theorem root_injective_same_skeleton_w s1 s2 r1 r2 :
+  content_ok (reach_content s1 r1) -> content_ok (reach_content s2 r2) ->
+  skeleton (reach_content s1 r1) = skeleton (reach_content s2 r2) ->
+  root_preimage s1 r1 = root_preimage s2 r2 ->
+  reach_content s1 r1 = reach_content s2 r2.
+Proof.
+  intros O1 O2 SK HE. rewrite !root_preimage_factor in HE.
+  apply enc_content_inj_same_skeleton; auto.
+Qed.
+
+(* ------------------------------------------------------------------ *)
+(* single mutations of the reachable content *)
+
+Inductive content_mut : content -> content -> Prop :=
+| CM_inplace c1 c2 :
+    skeleton c1 = skeleton c2 -> c1 <> c2 -> content_mut c1 c2
+| CM_node r ws ws' w ro p ns ns' n bs :
+    content_mut (r, ws ++ mkCwarp w ro p (ns ++ ns') bs :: ws')
+                (r, ws ++ mkCwarp w ro p (ns ++ n :: ns') bs :: ws')
+| CM_bucket r ws ws' w ro p ns bs bs' b :
+    content_mut (r, ws ++ mkCwarp w ro p ns (bs ++ bs') :: ws')
+                (r, ws ++ mkCwarp w ro p ns (bs ++ b :: bs') :: ws')
+| CM_warp r ws ws' c :
+    content_mut (r, ws ++ ws') (r, ws ++ c :: ws').
+
+Lemma id32_length x : length (id32 x) = 32%nat.
+Proof. apply be_bytes_length. Qed.
+
+Lemma enc_cnode_pos n : (0 < length (enc_cnode n))%nat.
+Proof. unfold enc_cnode. rewrite app_length, id32_length. lia. Qed.
+Lemma enc_cbucket_pos b : (0 < length (enc_cbucket b))%nat.
+Proof. unfold enc_cbucket. rewrite app_length, id32_length. lia. Qed.
+Lemma enc_cwarp_pos c : (0 < length (enc_cwarp c))%nat.
+Proof. unfold enc_cwarp. rewrite app_length, id32_length. lia. Qed.
+
+Lemma len_neq {A} (l1 l2 : list A) : length l1 <> length l2 -> l1 <> l2.
+Proof. intros H E. apply H. rewrite E. reflexivity. Qed.
+
+Theorem content_mut_changes_preimage c1 c2 :
+  content_ok c1 -> content_ok c2 -> content_mut c1 c2 ->
+  enc_content c1 <> enc_content c2 /\ enc_content c2 <> enc_content c1.
+Proof.
+  intros O1 O2 M.
+  assert (H : enc_content c1 <> enc_content c2); [|split; [exact H|intros E; apply H; symmetry; exact E]].
+  destruct M as [c1 c2 SK NE|r ws ws' w ro p ns ns' n bs|r ws ws' w ro p ns bs bs' b|r ws ws' c].
+  - intros E. apply NE. apply enc_content_inj_same_skeleton; auto.
+  - apply len_neq. unfold enc_content. cbn [fst snd].
+    rewrite !app_length, !flat_map_app. cbn [flat_map]. rewrite !app_length.
+    unfold enc_cwarp. cbn [cw_id cw_root cw_parent cw_nodes cw_buckets].
+    rewrite !app_length, !flat_map_app. cbn [flat_map]. rewrite !app_length.
+    pose proof (enc_cnode_pos n). lia.
+  - apply len_neq. unfold enc_content. cbn [fst snd].
+    rewrite !app_length, !flat_map_app. cbn [flat_map]. rewrite !app_length.
+    unfold enc_cwarp. cbn [cw_id cw_root cw_parent cw_nodes cw_buckets].
+    rewrite !app_length, !flat_map_app. cbn [flat_map]. rewrite !app_length.
+    pose proof (enc_cbucket_pos b). lia.
+  - apply len_neq. unfold enc_content. cbn [fst snd].
+    rewrite !app_length, !flat_map_app. cbn [flat_map]. rewrite !app_length.
+    pose proof (enc_cwarp_pos c). lia.
+Qed.
+
+(* ------------------------------------------------------------------ *)
+(* hash level *)
+
+Theorem state_root_same_skeleton_w (H : bytes -> N) s1 s2 r1 r2 :
+  content_ok (reach_content s1 r1) -> content_ok (reach_content s2 r2) ->
+  skeleton (reach_content s1 r1) = skeleton (reach_content s2 r2) ->
+  state_root H s1 r1 = state_root H s2 r2 ->
+  reach_content s1 r1 = reach_content s2 r2 \/ Collision H.
+Proof.
+  intros O1 O2 SK HE. unfold state_root in HE.
+  destruct (list_eq_dec N.eq_dec (root_preimage s1 r1) (root_preimage s2 r2)) as [E|NE].
+  - left. apply root_injective_same_skeleton_w; auto.
+  - right. exists (root_preimage s1 r1), (root_preimage s2 r2). split; auto.
+Qed.
+
+(* ------------------------------------------------------------------ *)
+(* the example pair really satisfies the hypotheses of the semantic theorem *)
+
+Lemma mem_in_keys {K} (cmp : K -> K -> comparison) (ceq : forall a b, cmp a b = Eq <-> a = b)
+  k (m : list (K * unit)) : mem cmp k m = true -> In k (map fst m).
+Proof.
+  unfold mem. destruct (find cmp k m) as [[]|] eqn:F; [|discriminate]. intros _.
+  apply (find_in cmp ceq) in F. apply in_map_iff. exists (k, tt). auto.
+Qed.
+
+Lemma ex_agree : agree_on_reachable ex_s1 ex_s2 ex_root.
+Proof.
+  destruct (reach_spec ex_s1 ex_root) as (rn & rw & E & _ & _ & HN & HW).
+  vm_compute in E. inversion E; subst rn rw. clear E.
+  split.
+  - intros k Hk. apply HN in Hk. apply (mem_in_keys nkey_cmp nk_eq) in Hk. cbn in Hk.
+    destruct Hk as [<-|[<-|[<-|[]]]]; vm_compute.
+    + repeat split; auto; try apply perm_swap; try (intros e [<-|[<-|[]]]; reflexivity).
+    + repeat split; auto; try (intros e []).
+    + repeat split; auto; try (intros e []).
+  - intros w Hw. apply HW in Hw. apply (mem_in_keys N.compare n_eq) in Hw. cbn in Hw.
+    destruct Hw as [<-|[<-|[]]]; vm_compute; auto.
+Qed.
+
+(* ------------------------------------------------------------------ *)
+(* a boolean check of [content_ok] (used to discharge it on concrete contents) *)
+
+Definition idb (x : N) : bool := x <? 2 ^ 256.
+Definition lenb (x : N) : bool := x <? 2 ^ 64.
+Definition att_okb (a : att) : bool :=
+  match a with Atom ty bs => idb ty && lenb (lenN bs) | Descend w => idb w end.
+Definition oatt_okb (o : option att) : bool := match o with None => true | Some a => att_okb a end.
+Definition akey_okb (k : akey) : bool :=
+  (ak_owner k <? 256) && (ak_plane k <? 256) && idb (ak_warp k) && idb (ak_local k).
+Definition oakey_okb (o : option akey) : bool := match o with None => true | Some k => akey_okb k end.
+Definition cnode_okb (n : cnode) : bool := idb (fst n) && (idb (fst (snd n)) && oatt_okb (snd (snd n))).
+Definition cedge_okb (e : cedge) : bool :=
+  idb (fst e) && (idb (fst (snd e)) && (idb (fst (snd (snd e))) && oatt_okb (snd (snd (snd e))))).
+Definition cbucket_okb (b : cbucket) : bool :=
+  idb (fst b) && lenb (lenN (snd b)) && forallb cedge_okb (snd b).
+Definition cwarp_okb (c : cwarp) : bool :=
+  idb (cw_id c) && idb (cw_root c) && oakey_okb (cw_parent c) &&
+  forallb cnode_okb (cw_nodes c) && forallb cbucket_okb (cw_buckets c).
+Definition content_okb (c : content) : bool :=
+  idb (fst (fst c)) && idb (snd (fst c)) && forallb cwarp_okb (snd c).
+
+Lemma idb_ok x : idb x = true -> id_ok x.
+Proof. unfold idb, id_ok. apply N.ltb_lt. Qed.
+Lemma lenb_ok x : lenb x = true -> len_ok x.
+Proof. unfold lenb, len_ok. apply N.ltb_lt. Qed.
+
+Lemma oatt_okb_ok o : oatt_okb o = true -> oatt_ok o.
+Proof.
+  destruct o as [[ty bs|w]|]; cbn; auto.
+  - rewrite andb_true_iff. intros [H1 H2]. split; [apply idb_ok|apply lenb_ok]; auto.
+  - apply idb_ok.
+Qed.
+
+Lemma oakey_okb_ok o : oakey_okb o = true -> oakey_ok o.
+Proof.
+  destruct o as [k|]; cbn; auto. unfold akey_okb, akey_ok, byte_ok.
+  rewrite !andb_true_iff. intros [[[H1 H2] H3] H4].
+  repeat split; try (apply N.ltb_lt; assumption); apply idb_ok; assumption.
+Qed.
+
+Lemma forallb_Forall {A} (f : A -> bool) (P : A -> Prop) l :
+  (forall x, f x = true -> P x) -> forallb f l = true -> Forall P l.
+Proof.
+  intros H. induction l as [|x l IH]; cbn; intros E; constructor.
+  - apply H. apply andb_true_iff in E. tauto.
+  - apply IH. apply andb_true_iff in E. tauto.
+Qed.
+
+Lemma cnode_okb_ok n : cnode_okb n = true -> cnode_ok n.
+Proof.
+  unfold cnode_okb, cnode_ok. rewrite !andb_true_iff. intros [H1 [H2 H3]].
+  repeat split; try (apply idb_ok; assumption). apply oatt_okb_ok; assumption.
+Qed.
+
+Lemma cedge_okb_ok e : cedge_okb e = true -> cedge_ok e.
+Proof.
+  unfold cedge_okb, cedge_ok. rewrite !andb_true_iff. intros [H1 [H2 [H3 H4]]].
+  repeat split; try (apply idb_ok; assumption). apply oatt_okb_ok; assumption.
+Qed.
+
+Lemma cbucket_okb_ok b : cbucket_okb b = true -> cbucket_ok b.
+Proof.
+  unfold cbucket_okb, cbucket_ok. rewrite !andb_true_iff. intros [[H1 H2] H3].
+  repeat split; [apply idb_ok|apply lenb_ok|]; auto.
+  eapply forallb_Forall; [apply cedge_okb_ok|exact H3].
+Qed.
+
+Lemma cwarp_okb_ok c : cwarp_okb c = true -> cwarp_ok c.
+Proof.
+  unfold cwarp_okb, cwarp_ok. rewrite !andb_true_iff. intros [[[[H1 H2] H3] H4] H5].
+  repeat split; try (apply idb_ok; assumption).
+  - apply oakey_okb_ok; assumption.
+  - eapply forallb_Forall; [apply cnode_okb_ok|exact H4].
+  - eapply forallb_Forall; [apply cbucket_okb_ok|exact H5].
+Qed.
+
+Lemma content_okb_ok c : content_okb c = true -> content_ok c.
+Proof.
+  unfold content_okb, content_ok. rewrite !andb_true_iff. intros [[H1 H2] H3].
+  repeat split; try (apply idb_ok; assumption).
+  eapply forallb_Forall; [apply cwarp_okb_ok|exact H3].
+Qed.
